@@ -9,6 +9,7 @@ import (
 	"encoding/json"
 	"fmt"
 	"os"
+	"runtime"
 	"strconv"
 	"strings"
 
@@ -77,6 +78,9 @@ func init() {
 		}
 		status := "ok"
 		note := ""
+		var m0, m1 runtime.MemStats
+		runtime.GC()
+		runtime.ReadMemStats(&m0)
 		switch args[0] {
 		case "tokenize":
 			tk, _ := tokenizer.New()
@@ -132,7 +136,9 @@ func init() {
 		default:
 			return 2
 		}
-		emitJSON(map[string]interface{}{"entry": args[0], "family": args[1], "k": k, "bytes": len(sql), "status": status, "note": note})
+		runtime.ReadMemStats(&m1)
+		emitJSON(map[string]interface{}{"entry": args[0], "family": args[1], "k": k, "bytes": len(sql), "status": status, "note": note,
+			"alloc_bytes": m1.TotalAlloc - m0.TotalAlloc, "mallocs": m1.Mallocs - m0.Mallocs})
 		return 0
 	}
 }
